@@ -90,6 +90,35 @@ def wave_case(mt):
                     continue
                 add('%s reuse=%s strip=%s' % (cls.__name__, reuse, strip), lambda cls=cls, reuse=reuse, strip=strip: run(cls, d0, lanes, inw, reuse, strip),
                     ident, ccmp=(not reuse and not strip))
+    # a second clock cycle: captured state transferred to the state elements' outputs (s_ppo_to_ppi), propagated again;
+    # the transferred assignment s[0..2] is part of the compared result
+    def run2(cls, reuse, strip):
+        w, pre, _ = run(cls, d0, lanes, inw, reuse, strip)
+        w.s_ppo_to_ppi(time=1.0)
+        w.s_to_c()
+        w.c_prop(seed=0)
+        post = np.array(w.c).copy()
+        w.c_to_s() if T is None else w.c_to_s(time=float(T))
+        return w, pre, post
+
+    def digs2(w, n):
+        sv = np.array(w.s)
+        return [wsim.dig(np.concatenate([sv[0:8, :, p].ravel(), sv[10, :, p].ravel()])) for p in range(n)]
+    try:
+        ref2, _, _ = run2(WaveSim, False, False)
+        base2 = len(rec['ref'])
+        rec['ref'] = rec['ref'] + digs2(ref2, lanes)
+        for cls, reuse, strip in ((WaveSimCuda, False, False), (WaveSimCuda, True, True), (WaveSim, True, False)):
+            r = dict(name='two cycles %s reuse=%s strip=%s' % (cls.__name__, reuse, strip), map=[base2 + p + 1 for p in range(lanes)], lanes=[], ccmp=False, c='', keep=[], raised=False)
+            try:
+                w2, _, _ = run2(cls, reuse, strip)
+                r['lanes'] = digs2(w2, lanes)
+            except Exception as e:
+                r['raised'] = True
+                r['err'] = repr(e)[:300]
+            rec['runs'].append(r)
+    except Exception as e:
+        rec['runs'].append(dict(name='two cycles WaveSim (reference)', map=[], lanes=[], ccmp=False, c='', keep=[], raised=True, err=repr(e)[:300]))
     extra = mt['extra']
     wide = [row + [row[p % lanes] for p in range(extra)] for row in inw]
     add('allocated %d more lanes' % extra, lambda: run(mt['cls2'], d0, lanes + extra, wide), ident + [(p % lanes) + 1 for p in range(extra)])
